@@ -694,3 +694,11 @@ Theorem C12_history_mcs_mol :
   m_run cfg st (ops ++ MFindMol g1 g2 choice :: rds) = state_of r.
 Proof. exact history_mol. Qed.
 Print Assumptions C12_history_mcs_mol.
+
+(** mcs_mol=True through the ITS facade (component=False) is the same call on the sides the facade selects *)
+Theorem C12_facade_mcs_mol :
+  forall (cfg : config) (st : mstate) (x : rc_input) (sd : side) (choice : mapping) (ga gb : rgraph),
+  pick_sides x sd = Some (ga, gb) ->
+  m_step cfg st (MRcMol x sd choice) = m_step cfg st (MFindMol ga gb choice).
+Proof. exact rc_mol_is_find_mol. Qed.
+Print Assumptions C12_facade_mcs_mol.
